@@ -21,31 +21,31 @@ import (
 
 // C20Job is the job of the race-detector child.
 type C20Job struct {
-	Dir      string         `json:"dir"`
-	Runs     []TaintRunSpec `json:"runs"`
-	Reports  map[string]string `json:"reports"` // run name -> reports dir
-	YieldSeed int64         `json:"yield_seed"`
-	MapPar   bool           `json:"map_par"` // run the MapParallel sweep instead of analyses
-	Out      string         `json:"out"`
+	Dir       string            `json:"dir"`
+	Runs      []TaintRunSpec    `json:"runs"`
+	Reports   map[string]string `json:"reports"` // run name -> reports dir
+	YieldSeed int64             `json:"yield_seed"`
+	MapPar    bool              `json:"map_par"` // run the MapParallel sweep instead of analyses
+	Out       string            `json:"out"`
 }
 
 // C20RunResult is the result of one analysis under the race detector.
 type C20RunResult struct {
-	Name           string          `json:"name"`
-	Flows          []ana.FlowPair  `json:"flows"`
-	GoroutinesPre  int             `json:"g_pre"`
-	GoroutinesPost int             `json:"g_post"`
+	Name           string           `json:"name"`
+	Flows          []ana.FlowPair   `json:"flows"`
+	GoroutinesPre  int              `json:"g_pre"`
+	GoroutinesPost int              `json:"g_post"`
 	HookHits       map[string]int64 `json:"hook_hits"`
-	Summaries      []string        `json:"summaries"` // Parent.String() of every non-nil summary at return
-	Err            string          `json:"err,omitempty"`
+	Summaries      []string         `json:"summaries"` // Parent.String() of every non-nil summary at return
+	Err            string           `json:"err,omitempty"`
 }
 
 // C20Result is the child's answer.
 type C20Result struct {
-	Runs      []C20RunResult `json:"runs"`
-	MapParBad []string       `json:"map_par_bad"`
-	MapParN   int            `json:"map_par_n"`
-	MapParOrders int         `json:"map_par_orders"`
+	Runs         []C20RunResult `json:"runs"`
+	MapParBad    []string       `json:"map_par_bad"`
+	MapParN      int            `json:"map_par_n"`
+	MapParOrders int            `json:"map_par_orders"`
 }
 
 func raceBinary() string {
